@@ -103,6 +103,21 @@ func (c16) Generate(r *engine.Rand, index int, tier string) *engine.Scenario {
 		sc.SetP("lcd_lead", int64(r.Range(1, 600)))
 	}
 	sc.Cycles = sc.Events[len(sc.Events)-1].At + 200
+	if index%40 == 7 {
+		// long after the transfer: the source page is rewritten and nothing is started for more than
+		// 65,536 machine cycles; OAM keeps what was copied
+		sc.Class = "dma-then-long-idle"
+		src := uint16(page) << 8
+		if src >= 0xe000 {
+			src -= 0x2000
+		}
+		at := sc.Cycles
+		for i := 0; i < 6; i++ {
+			at += uint64(r.Range(1, 9))
+			sc.Events = append(sc.Events, engine.Event{At: at, K: "bus_w", A: src + uint16(r.Intn(0xa0)), V: r.Byte(), S: "src"})
+		}
+		sc.Cycles = at + 66000 + uint64(r.Intn(70000))
+	}
 	return sc
 }
 
